@@ -651,7 +651,21 @@ func legacyHistory(g *genCtx) {
 	fan := buildTxn(txnSpec{ins: coin.UxArray{gen}, outs: outs, signer: func(int) cipher.SecKey { return ownerKey(gen) }})
 	sb := forgeBlock(P, coin.Transactions{fan}, headTime+10, 0, nil, secKey)
 	g.emit("exec F " + encodeBlock(&sb))
-	for round := 0; round < 3 && alive(); round++ {
+	// an ordinary block 30-130 hours later: from now on the legacy outputs' "base + earned" overflows at the head
+	if uxs, ht := spendable(P); alive() {
+		for _, u := range uxs {
+			if u.Body.Coins > 1e12 {
+				u := u
+				aging := buildTxn(txnSpec{ins: coin.UxArray{u},
+					outs:   []coin.TransactionOutput{{Address: keys[0].addr, Coins: u.Body.Coins, Hours: 1}},
+					signer: func(int) cipher.SecKey { return ownerKey(u) }})
+				sb := forgeBlock(P, coin.Transactions{aging}, ht+3600*uint64(30+r.Intn(100)), 0, nil, secKey)
+				g.emit("exec F " + encodeBlock(&sb))
+				break
+			}
+		}
+	}
+	for round := 0; round < 4 && alive(); round++ {
 		uxs, headTime = spendable(P)
 		var legacy, plain coin.UxArray
 		for _, u := range uxs {
